@@ -677,7 +677,7 @@ impl CaseDriver for Dag {
     fn describe(&self, t: Tier) -> Describe {
         Describe {
             rule: format!(
-                "placed libraries of n = {}..={} cells: every DAG (cell i may instantiate any subset of the cells j < i) x every listing order of the cells (n!) x reflection base (instance k of a cell gets combination (base+k) mod 4, so all four occur) x content profile (0/1/2 assignments and cuts per layout, witness quadruples with four different numbers) x {{message, message through prost bytes}}; value deviations (library / cell names incl. empty and non-ASCII, outline 1-3 steps / repeated step / zero, metals 0..3, views layout / layout+abstract / abstract-only leaf, per-cell assignment and cut counts, net names, per-instance reflection, location incl. (0,0) and negative, duplicated instance) in at most {} place(s). State = one library description + transport; non-trivial = at least one instance, assignment or cut.",
+                "placed libraries of n = {}..={} cells: every DAG (cell i may instantiate any subset of the cells j < i) x every listing order of the cells (n!) x reflection base (instance k of a cell gets combination (base+k) mod 4, so all four occur) x content profile (0/1/2 assignments and cuts per layout, witness quadruples with four different numbers); value deviations (transport: message as exported / through prost encode+decode, library / cell names incl. empty and non-ASCII, outline 1-3 steps / repeated step / zero, metals 0..3, views layout / layout+abstract / abstract-only leaf, per-cell assignment and cut counts, net names, per-instance reflection, location incl. (0,0) and negative, duplicated instance) in at most {} place(s). State = one library description + transport; non-trivial = at least one instance, assignment or cut.",
                 self.nmin,
                 self.nmax,
                 self.bound(t)
@@ -713,7 +713,7 @@ impl CaseDriver for Dag {
         let listing = perms[c.free(perms.len(), "listing")].clone();
         let base = c.free(4, "refl-base");
         let profile = c.free(3, "profile");
-        let via_bytes = c.flag("via-bytes");
+        let via_bytes = c.cost(2, "via-bytes") == 1;
         let name = ["lib19", "", "Bibliothèque 19"][c.cost(3, "lib-name")].to_string();
         let mut cells = vec![];
         for i in 0..n {
